@@ -24,7 +24,9 @@
    bound is shown for ALL settings (c12_*_window_start_upper_any_settings).  (2) "the host's
    collateral does not exceed the configured maximum": the collateral is the locked collateral the
    validator returns (formation: the code even bounds the whole host payout by MaxCollateral).
-   (3) "the base storage revenue of renewed data" is what the handlers compute: price * size *
+   (3) "from the current height": RHP2 measures from the chain tip, RHP3 from the HostBlockHeight
+   of the price table the renewal is negotiated under (the prices and height "in force").
+   (4) "the base storage revenue of renewed data" is what the handlers compute: price * size *
    extension of the proof window (plus the fixed RenewContractCost in RHP3). *)
 From HostdBase Require Import Base.
 From HostdRevision Require Import Model Proofs.
